@@ -43,6 +43,13 @@ theorem c18_frames (ms : List Bytes) (hok : MsgsOK ms) :
         List.length_append, le64_length]
       omega
 
+/-- **any sequence of writes, also empty ones, arrives as their concatenation**: `Writer.Write` sends
+one chunk per call whatever the size of the slice, `Reader.WriteTo` writes the data of every chunk it
+receives (into one recycled chunk object: an empty chunk must not repeat the previous one's data -
+the run `ship` of mode frames drives the real reader with such streams) -/
+theorem c18_ship_any_writes (ps : List Bytes) : readerWriteTo (ps.map writerWrite) = ps.flatten := by
+  simp [readerWriteTo, writerWrite, List.map_map, Function.comp_def]
+
 /-- **chunking**: whatever the chunk size and wherever chunk boundaries fall (whatever the reads of
 the file return), the receiver reassembles exactly the sender's byte stream … -/
 theorem c18_chunks (reads : List Bytes) : readerWriteTo (writerReadFrom reads) = reads.flatten :=
